@@ -756,6 +756,23 @@ func concShort(s string) string {
 	return fmt.Sprintf("#%x/%d", sum[:8], len(s))
 }
 
+// concTrunc makes a result fit for a case-line outcome: no separators, at most 160 characters.
+func concTrunc(s string) string {
+	s = strings.Map(func(r rune) rune {
+		if r == '\n' || r == '\t' || r == ' ' {
+			return '_'
+		}
+		if r == ':' {
+			return '='
+		}
+		return r
+	}, s)
+	if len(s) > 160 {
+		s = s[:160] + "…"
+	}
+	return s
+}
+
 func concSum(b []byte) string {
 	sum := sha256.Sum256(b)
 	return fmt.Sprintf("%x/%d", sum[:8], len(b))
@@ -777,6 +794,17 @@ func (r *concRng) intn(n int) int { return int(r.next() % uint64(n)) }
 // the recursion that exhausts the budget of 64 nested actions.
 var concTriggers = []string{"QQQQQQQQ", "QQQQQQQQQQQQQQQQQ", "FI", "FL", "AAA", "AAB", "AE", "BCDEF", "ABCDEF", "ABCL",
 	"AV", "OO", "TE", "AVWA", "KM", "LN", "KMN", "NM", "AGIJ", "BHIK", "ABC", "BM", "AMAMA", "DEFAGHI"}
+
+// concStale: sequences for one reused layouter — a long text first, then shorter and equally long
+// ones, so that every later glyph sits at a buffer index used before; with GDEF marks (M, N: no
+// advance is set for them) and glyphs that GPOS places (A-C y+10, H x+1, I y+1, marks on bases).
+var concStale = [][]string{
+	{"AAC", "CBC"},
+	{"ABCHIAMBN", "MNMNM", "CBC", "NM"},
+	{"HIHIHIHI", "MMMM", "BMBM", "AVAV"},
+	{"KMLNKMN", "NNN", "ABC", "CBA"},
+	{"AAAAAAAAAAAA", "MAM", "MAM", "M"},
+}
 
 func concText(r *concRng) string {
 	const pool = "AAABBCCDEFGHIJKLMNOPQRSTUVWXYZ AVTEOOW"
@@ -938,20 +966,36 @@ var concOps = []concOp{
 		return fmt.Sprintf("err=%v,%s", err, concSum(buf.Bytes()))
 	}},
 	{"layout", "", func(f *sfnt.Font, r *concRng) string {
-		l, err := f.NewLayouter(concLangs[r.intn(len(concLangs))], nil, nil)
+		// ONE layouter lays out a SEQUENCE of texts (as callers do: the layouter and its buffer are
+		// reused); every result must be what a FRESH layouter returns for that text alone.
+		lang := concLangs[r.intn(len(concLangs))]
+		l, err := f.NewLayouter(lang, nil, nil)
 		if err != nil {
 			return "err=" + err.Error()
 		}
-		var b strings.Builder
-		for i := 0; i < 3; i++ { // the layouter (and its buffer) is reused, as callers do
-			b.WriteString(concShowSeq(l.Layout(concText(r))))
-			b.WriteByte('|')
+		var texts []string
+		for i := 0; i < 3; i++ {
+			texts = append(texts, concText(r))
 		}
+		// shrinking and equal lengths after a longer text, with marks (M, N) and placements
+		texts = append(texts, concStale[r.intn(len(concStale))]...)
 		if f.Gsub != nil || f.Gpos != nil { // every trigger text, incl. the budget-exhausting one
-			for _, t := range concTriggers {
-				b.WriteString(concShowSeq(l.Layout(t)))
-				b.WriteByte('|')
+			texts = append(texts, concTriggers...)
+		}
+		var b strings.Builder
+		prev := ""
+		for _, t := range texts {
+			got := concShowSeq(l.Layout(t))
+			fresh, err := f.NewLayouter(lang, nil, nil)
+			if err != nil {
+				return "err=" + err.Error()
 			}
+			if want := concShowSeq(fresh.Layout(t)); got != want {
+				return "notalone:text=" + t + ",after=" + prev + ",reused=" + got + ",fresh=" + want
+			}
+			b.WriteString(got)
+			b.WriteByte('|')
+			prev = t
 		}
 		return concShort(b.String())
 	}},
@@ -1072,6 +1116,13 @@ func concPure(fd Fields) string {
 	if r1 == "unknown-op" {
 		return r1
 	}
+	for _, r := range []string{r1, r2} {
+		if strings.HasPrefix(r, "notalone:") {
+			// the call did not return what it returns when run alone (state carried over from an
+			// earlier call on a per-goroutine object)
+			return "differs:" + concTrunc(r)
+		}
+	}
 	if d := before.diff(mid); d != "" {
 		return d
 	}
@@ -1122,6 +1173,13 @@ func concParallel(fd Fields) string {
 	ref := seqRun()
 	if d := before.diff(concSnapshot(fd["font"], f)); d != "" {
 		return d + "(sequential)"
+	}
+	for g := range ref {
+		for k, r := range ref[g] {
+			if strings.HasPrefix(r, "notalone:") {
+				return fmt.Sprintf("differs:g=%d,k=%d,op=%s,%s", g, k, opAt(g, k), concTrunc(r))
+			}
+		}
 	}
 
 	par := make([][]string, n)
